@@ -276,6 +276,19 @@ func genC08(tier string, seed int64) (*Family, error) {
 		fmt.Fprintf(&body, "\tmustOK(rb.BuildRuleFromString(text), \"full build\")\n\tq := vnd.Int64(\"q\")\n\tmustOK(rb.BuildRuleWithIncremental(verRule(%q, 2, q, \"nn\")), \"incremental build\")\n\tspec[%q] = specRule{2, q, \"nn\"}\n\tcheckSet(rb, spec, []string{\"zz\"})\n", v.newName, v.newName)
 		add("S_"+v.id, "incremental/larger-set", v.desc, body.String())
 	}
+	// rules without a salience clause have salience 0 in full and incremental builds, whatever stands before them
+	add("S_default_salience", "default-salience", "clause-less rules after rules with saliences, full build then incremental re-send",
+		"\trb := newBuilder()\n\tsa, sb := vnd.Int64(\"sa\"), vnd.Int64(\"sb\")\n\tnosal := func(name string, ver int) string {\n\t\treturn \"rule \\\"\" + name + \"\\\" \\\"d\" + name + \"\\\"\\nbegin\\n ver(\\\"\" + name + \"\\\", \" + strconv.Itoa(ver) + \")\\nend\\n\"\n\t}\n"+
+			"\tvnd.ExploreMapOrder(true)\n\tmustOK(rb.BuildRuleFromString(verRule(\"a\", 1, sa, \"da\")+nosal(\"b\", 1)+verRule(\"c\", 1, sb, \"dc\")+nosal(\"d\", 1)), \"full build\")\n\tvnd.ExploreMapOrder(false)\n"+
+			"\tspec := map[string]specRule{\"a\": {1, sa, \"da\"}, \"b\": {1, 0, \"db\"}, \"c\": {1, sb, \"dc\"}, \"d\": {1, 0, \"dd\"}}\n\tcheckSet(rb, spec, nil)\n"+
+			"\tq := vnd.Int64(\"q\")\n\tmustOK(rb.BuildRuleWithIncremental(verRule(\"x\", 2, q, \"dx\")+nosal(\"b\", 2)+nosal(\"y\", 2)), \"incremental build\")\n"+
+			"\tspec[\"x\"] = specRule{2, q, \"dx\"}\n\tspec[\"b\"] = specRule{2, 0, \"db\"}\n\tspec[\"y\"] = specRule{2, 0, \"dy\"}\n\tcheckSet(rb, spec, nil)\n")
+	// names that differ only in letter case are different rules for every operation
+	add("S_case_names", "case-names", "Alpha / alpha / BETA / beta: removal and incremental builds treat them as four rules",
+		"\trb := newBuilder()\n\tmustOK(rb.BuildRuleFromString(verRule(\"Alpha\", 1, 4, \"d1\")+verRule(\"alpha\", 1, 3, \"d2\")+verRule(\"BETA\", 1, 2, \"d3\")+verRule(\"beta\", 1, 1, \"d4\")), \"full build\")\n"+
+			"\tspec := map[string]specRule{\"Alpha\": {1, 4, \"d1\"}, \"alpha\": {1, 3, \"d2\"}, \"BETA\": {1, 2, \"d3\"}, \"beta\": {1, 1, \"d4\"}}\n\tcheckSet(rb, spec, []string{\"ALPHA\", \"Beta\"})\n"+
+			"\tmustOK(rb.BuildRuleWithIncremental(verRule(\"ALPHA\", 2, 9, \"n\")), \"incremental build\")\n\tspec[\"ALPHA\"] = specRule{2, 9, \"n\"}\n\tcheckSet(rb, spec, []string{\"Beta\"})\n"+
+			"\tmustOK(rb.RemoveRules([]string{\"alpha\", \"nope\", \"BETA\"}), \"removal\")\n\tdelete(spec, \"alpha\")\n\tdelete(spec, \"BETA\")\n\tcheckSet(rb, spec, []string{\"alpha\", \"BETA\", \"Beta\"})\n")
 	// rejected calls leave the set alone
 	add("S_remove_nothing", "rejected", "removing an empty list fails and changes nothing",
 		pre(2)+"\terr := rb.RemoveRules(nil)\n\tvnd.Assert(err != nil, \"an empty removal list is rejected\")\n\tcheckSet(rb, spec, nil)\n")
